@@ -14,8 +14,10 @@ import traceback
 from pathlib import Path
 
 VERIF = Path(__file__).resolve().parent.parent
-EVIDENCE_DIR = VERIF / "evidence"
-REPLAY_DIR = VERIF / "replays"
+# redirected only by tools/matrix.py (parallel evaluation of seeded trees must not clobber the
+# evidence of the registered checks)
+EVIDENCE_DIR = Path(os.environ.get("VERIF_EVIDENCE_DIR") or (VERIF / "evidence"))
+REPLAY_DIR = Path(os.environ.get("VERIF_REPLAY_DIR") or (VERIF / "replays"))
 KNOWN_FILE = VERIF / "known_findings.json"
 
 EXIT_OK, EXIT_VIOLATION, EXIT_HARNESS = 0, 1, 2
